@@ -1,21 +1,9 @@
 (** C16: refutations kept as findings (each closed by vm_compute in
-    proofs/CronProofs.v and proofs/CroltProofs.v). *)
+    proofs/CroltProofs.v), and the traces of the repaired cron defects
+    (D26, D38, D49, D50) with their outcome after the repair
+    (proofs/CronProofs.v). *)
 From Verif Require Import Json Outcome Cron Crolt CronSpec CronProofs CroltSpec CroltProofs.
 
-(** D26: a recurring job removed while its callback runs re-inserts itself
-    (Rem finds nothing: the job is off the timeline while it runs) ... *)
-Definition removed_inflight_recurring_refuted := removed_inflight_recurring_counterexample.
-(** ... and a job added under that id meanwhile is dropped by the re-insertion. *)
-Definition readd_inflight_lost_refuted := readd_inflight_lost_counterexample.
-(** D38: Rem does not reset the timer: after the removal of the head the timer
-    expires, finds the new head not ready, and is never armed again. *)
-Definition rem_head_stalls_refuted := rem_head_stalls_counterexample.
-(** D49: an Add while suspended re-arms the timer; the loop's timer branch does
-    not look at the suspended flag: jobs fire while suspended. *)
-Definition add_while_suspended_fires_refuted := add_while_suspended_fires_counterexample.
-(** D50: schedule removes the pending job of the id before the limit check: a
-    refused Add deletes the job. *)
-Definition add_at_capacity_drops_job_refuted := add_at_capacity_drops_job_counterexample.
 (** D40: crolt's Add trusts the client's TId and deletes that time entry. *)
 Definition client_tid_breaks_consistency_refuted := client_tid_breaks_consistency_counterexample.
 (** D39: crolt's time keys are ordered as strings: inside one second an entry
@@ -24,3 +12,16 @@ Definition client_tid_breaks_consistency_refuted := client_tid_breaks_consistenc
 Definition work_fires_subsecond_early_refuted := work_fires_subsecond_early_counterexample.
 Definition work_defers_due_entry_refuted := work_defers_due_entry_counterexample.
 Definition whole_second_key_waits_a_second_refuted := whole_second_key_waits_a_second_counterexample.
+
+(** Repaired (the trace that refuted the clause on the pinned code, with what
+    the repaired code does):
+    D26: a recurring job removed while its callback runs stays removed ... *)
+Definition removed_inflight_recurring_fixed := removed_inflight_recurring_fixed_example.
+(** ... and a job added under that id meanwhile is kept. *)
+Definition readd_inflight_kept := readd_inflight_kept_example.
+(** D38: Rem of the head re-arms the timer for the new head. *)
+Definition rem_head_rearms := rem_head_rearms_example.
+(** D49: an Add while suspended does not arm the timer; nothing fires until Resume. *)
+Definition add_while_suspended_quiet := add_while_suspended_quiet_example.
+(** D50: an Add refused at capacity leaves the pending job of that id in place. *)
+Definition add_at_capacity_refused_keeps_job := add_at_capacity_refused_keeps_job_example.
